@@ -272,6 +272,24 @@ def _is_blacklisted(element: Any) -> bool:
     return False
 
 
+def _is_method_blacklisted(method: Any) -> bool:
+    """Checks if the given method of a class belongs to the method blacklist.
+
+    Methods are matched by their qualified name, e.g., ``module.Class.method``,
+    in the same way as module-level functions are matched in ``_is_blacklisted``.
+
+    Args:
+        method: The method to check
+
+    Returns:
+        Is the method blacklisted?
+    """
+    method_blacklist = set(METHOD_BLACKLIST).union(config.configuration.ignore_methods)
+    module_name = getattr(method, "__module__", None)
+    qualname = getattr(method, "__qualname__", None)
+    return f"{module_name}.{qualname}" in method_blacklist
+
+
 C_MODULE_WHITELIST = frozenset((
     # === Basic C modules (interpreter startup) ===
     "abc",
@@ -1692,6 +1710,7 @@ def __analyse_method(
         or __should_skip_by_visibility(method_name.rpartition(".")[2], add_to_test=add_to_test)
         or __is_constructor(method_name)
         or not __is_method_defined_in_class(type_info.raw_type, method)
+        or _is_method_blacklisted(method)
     ):
         LOGGER.debug("Skipping method %s from analysis", method_name)
         return
